@@ -94,6 +94,67 @@ theorem names_nodup (base : List Char) (n : Nat) (hn : 2 ≤ n) : (replicaNames 
   have hr : (List.range n).Pairwise (· ≠ ·) := List.nodup_range
   exact hr.imp fun {a b} hab h => hab (name_injective base n a b hn h)
 
+
+/-! ### Names of different replicated processes never clash -/
+
+theorem digitChar_ne_dash (d : Nat) (h : d < 10) : digitChar d ≠ '-' := by
+  have : d = 0 ∨ d = 1 ∨ d = 2 ∨ d = 3 ∨ d = 4 ∨ d = 5 ∨ d = 6 ∨ d = 7 ∨ d = 8 ∨ d = 9 := by omega
+  rcases this with rfl | rfl | rfl | rfl | rfl | rfl | rfl | rfl | rfl | rfl <;> decide
+
+theorem decimal_no_dash (n : Nat) : '-' ∉ decimal n := by
+  induction n using Nat.strongRecOn with
+  | _ n ih =>
+    unfold decimal
+    by_cases h : n < 10
+    · simp only [h, ↓reduceIte, List.mem_singleton]
+      exact fun hc => digitChar_ne_dash n h hc.symm
+    · simp only [h, ↓reduceIte, List.mem_append, List.mem_singleton, not_or]
+      exact ⟨ih (n / 10) (by omega), fun hc => digitChar_ne_dash (n % 10) (Nat.mod_lt _ (by omega)) hc.symm⟩
+
+theorem pad0_no_dash (w n : Nat) : '-' ∉ pad0 w n := by
+  unfold pad0
+  intro h
+  rcases List.mem_append.mp h with h | h
+  · have := List.eq_of_mem_replicate h
+    exact absurd this (by decide)
+  · exact decimal_no_dash n h
+
+theorem append_dash_inj : ∀ (b1 b2 d1 d2 : List Char), '-' ∉ d1 → '-' ∉ d2 →
+    b1 ++ '-' :: d1 = b2 ++ '-' :: d2 → b1 = b2 ∧ d1 = d2 := by
+  intro b1
+  induction b1 with
+  | nil =>
+    intro b2 d1 d2 h1 _ h
+    cases b2 with
+    | nil => simp at h; exact ⟨rfl, h⟩
+    | cons c b2 =>
+      simp only [List.nil_append, List.cons_append, List.cons.injEq] at h
+      exact absurd (h.2 ▸ (by simp : '-' ∈ b2 ++ '-' :: d2)) h1
+  | cons a b1 ih =>
+    intro b2 d1 d2 h1 h2 h
+    cases b2 with
+    | nil =>
+      simp only [List.nil_append, List.cons_append, List.cons.injEq] at h
+      exact absurd (h.2 ▸ (by simp : '-' ∈ b1 ++ '-' :: d1)) h2
+    | cons c b2 =>
+      simp only [List.cons_append, List.cons.injEq] at h
+      obtain ⟨r1, r2⟩ := ih b2 d1 d2 h1 h2 h.2
+      exact ⟨by rw [h.1, r1], r2⟩
+
+/-- **Replica names of two different replicated processes are different**, whatever their names
+    and counts (a name ends in `-` and digits only, so the process name can be read back). -/
+theorem names_disjoint (b1 b2 : List Char) (n1 n2 i j : Nat) (h1 : 2 ≤ n1) (h2 : 2 ≤ n2) (hb : b1 ≠ b2) :
+    replicaName b1 n1 i ≠ replicaName b2 n2 j := by
+  have e1 : ¬ n1 ≤ 1 := by omega
+  have e2 : ¬ n2 ≤ 1 := by omega
+  simp only [replicaName, e1, e2, ↓reduceIte, List.append_assoc, List.cons_append, List.nil_append]
+  intro h
+  exact hb (append_dash_inj _ _ _ _ (pad0_no_dash _ _) (pad0_no_dash _ _) h).1
+
+/-- the one possible clash: a single-replica process whose own name looks like a replica name -/
+example : replicaName "w-0".toList 1 0 = replicaName "w".toList 2 0 := by
+  simp [replicaName, pad0, digits10, decimal, digitChar]
+
 example : replicaName "web".toList 12 3 = "web-03".toList := by
   simp [replicaName, pad0, digits10, decimal, digitChar]
 example : replicaName "web".toList 100 7 = "web-007".toList := by
